@@ -82,26 +82,26 @@ func (c *vhC15Ctx) Reset(s state.WorldSnapshot) error {
 	}
 	return nil
 }
-func (c *vhC15Ctx) Database() db.Database         { return nil }
-func (c *vhC15Ctx) Revision() module.Revision     { return c.rev }
-func (c *vhC15Ctx) TransactionID() []byte         { return []byte{0x15} }
-func (c *vhC15Ctx) FeeSharingEnabled() bool       { return false }
-func (c *vhC15Ctx) BlockHeight() int64            { return 1 }
-func (c *vhC15Ctx) ChainID() int                  { return 1 }
+func (c *vhC15Ctx) Database() db.Database               { return nil }
+func (c *vhC15Ctx) Revision() module.Revision           { return c.rev }
+func (c *vhC15Ctx) TransactionID() []byte               { return []byte{0x15} }
+func (c *vhC15Ctx) FeeSharingEnabled() bool             { return false }
+func (c *vhC15Ctx) BlockHeight() int64                  { return 1 }
+func (c *vhC15Ctx) ChainID() int                        { return 1 }
 func (c *vhC15Ctx) GetProperty(name string) interface{} { return nil }
 
 // the harness program
 type vhC15Prog struct {
 	*contract.CommonHandler
-	ctx      *vhC15Ctx
-	steps    *big.Int
-	moveOn   *big.Int // moved from the recipient to the third account (nil: not done)
+	ctx            *vhC15Ctx
+	steps          *big.Int
+	moveOn         *big.Int // moved from the recipient to the third account (nil: not done)
 	takeFromSender *big.Int // moved from the sender to the third account by the program (nil: not done)
 	taken          *big.Int // what was actually taken
 	returnedOK     bool     // the program itself ended successfully
-	emit     bool
-	status   error
-	executed bool
+	emit           bool
+	status         error
+	executed       bool
 }
 
 func (p *vhC15Prog) ExecuteSync(cc contract.CallContext) (error, *codec.TypedObj, module.Address) {
